@@ -84,7 +84,7 @@ func run(rt *rapid.T, disciplined bool) {
 	var pending interface{ Commit(bool) error }
 	var pendingModel map[string]refwmpt.Entry
 	unwritten := false
-	commits, gcAfterChange, recreates, rootReadDirty, gcDirty := 0, 0, 0, 0, 0
+	commits, gcAfterChange, recreates, rootReadDirty, gcDirty, migrations := 0, 0, 0, 0, 0, 0
 	steps := gen.Uniform(rt, 6, 36, "steps")
 	for i := 0; i < steps; i++ {
 		k := gen.Pct(rt, "op")
@@ -107,6 +107,11 @@ func run(rt *rapid.T, disciplined bool) {
 				continue
 			}
 			if k < 5 && m.Revert(rt, "revert") {
+				gcAfterChange = 0
+				continue
+			}
+			if k >= 12 && k < 16 && unique && m.Migrate(rt, wmkit.GenValue(rt, 60, &counter, unique), "migrate") {
+				migrations++
 				gcAfterChange = 0
 				continue
 			}
@@ -272,6 +277,7 @@ func run(rt *rapid.T, disciplined bool) {
 	add(recreates > 0, "recreate-identical")
 	add(rootReadDirty > 0, "root-read-while-dirty")
 	add(gcDirty > 0, "gc-while-dirty")
+	add(migrations > 0, "value-moved-between-keys")
 	ev.Case(m.History(), nt, cls...)
 	if nt && ev.WantSample() {
 		ev.Sample(map[string]any{"history": m.Log, "storage_ops": len(log), "crash_prefixes_checked": prefixes})
